@@ -46,6 +46,7 @@ func (ctx *Context) RunExpr(value string, useUpCtxLocal bool) (*VMValue, error) 
 	})
 
 	oldErr := ctx.Error // 注意，这一储存在并发状态下可能并不准确
+	ctx.Error = nil     // 上一次求值留下的错误不属于本次表达式
 	v := val.FuncInvokeRaw(ctx, nil, useUpCtxLocal)
 	curErr := ctx.Error
 	ctx.Error = oldErr // 这是临时方案，本质上不应对当前ctx的状态做出改变
